@@ -260,6 +260,8 @@ inductive Op where
   | cdelete (c : String) (key : String)
   /-- build an HNSW index over the collection's current vectors and `cache_hnsw_index(c, ..)` -/
   | cbuild (c : String)
+  /-- `invalidate_hnsw_cache("_default")` (`none`) / `invalidate_hnsw_cache(c)` -/
+  | invalidate (c : Option String)
 
 inductive Resp where
   | ok
@@ -345,6 +347,11 @@ def step (st : State) : Op → State × Resp
     else if sameDims x.items then
       (setColl st c ⟨x.items, some (snapOf x.items)⟩, .okN x.items.length)
     else (st, .err .dimMismatch)
+  | .invalidate none =>
+    -- lib.rs:1321-1323
+    ({ st with dflt := ⟨st.dflt.items, none⟩ }, .ok)
+  | .invalidate (some c) =>
+    (setColl st c ⟨(collOf st c).items, none⟩, .ok)
 
 def run : State → List Op → State
   | st, [] => st
